@@ -777,3 +777,99 @@ func (g *stGen) history(target int, w stWeights) {
 		}
 	}
 }
+
+// --- large histories (C07) -------------------------------------------------------
+//
+// A table with more than 1000 (and more than 2000) matching rows in one namespace, listed with page sizes
+// above 1000: any internal cap on the number of rows one list query pulls (a LIMIT smaller than page_size+1
+// while the has-more test still compares with page_size, a fixed 1000-row buffer, ...) loses rows or ends the
+// iteration early only in this region. About 1 in 60 histories of the `store` stream, and always history 7.
+
+var stLargeSizes = []int{1000, 1001, 1002, 1500, 2000, 2147483647}
+
+func stIsLargeHistory(r *rand.Rand, i int) bool {
+	return i == 7 || r.Intn(60) == 0
+}
+
+func (g *stGen) largeHistory() {
+	c, r := g.c, g.r
+	net := g.nets[0]
+	o := c.env.o
+	n := 1100 + r.Intn(1201)
+	if envInt("VERIF_STORE_LARGE_N", 0) > 0 {
+		n = envInt("VERIF_STORE_LARGE_N", 0)
+	}
+	o.Count("large:histories")
+	o.Count(fmt.Sprintf("large:rows:%d00+", n/100))
+	ns := g.ns(true)
+	rel := pick(r, g.rels)
+	subs := []stSub{{id: g.obj()}, {id: g.obj()}, {set: true, ns: g.ns(true), obj: g.obj(), rel: pick(r, g.rels)}}
+	ts := make([]stTuple, n)
+	for i := range ts {
+		ts[i] = stTuple{ns: ns, obj: c.intern(fmt.Sprintf("L%d", i)), rel: rel, sub: subs[i%len(subs)]}
+		if i%97 == 96 {
+			ts[i].rel = g.rels[(i/97)%len(g.rels)] // a few rows outside a (ns, rel) query
+		}
+		if i > 0 && i%211 == 0 {
+			ts[i] = ts[i-1] // duplicates
+		}
+	}
+	// a few rows of other namespaces first, so that "all rows" and "rows of ns" differ
+	c.run(g.itemC(net))
+	c.run(g.itemW(net))
+	// the bulk: one or two ops, through the Persister or through PATCH
+	parts := [][]stTuple{ts}
+	if r.Intn(2) == 0 {
+		k := 1 + r.Intn(n-1)
+		parts = [][]stTuple{ts[:k], ts[k:]}
+	}
+	for _, part := range parts {
+		if r.Intn(2) == 0 {
+			g.ensureMapped(net, part)
+			c.run(&stItem{kind: "W", net: net, ins: part})
+		} else {
+			ds := make([]*stDelta, len(part))
+			for i, t := range part {
+				ds[i] = &stDelta{action: "i", actionStr: "insert", t: stFromTuple(t)}
+			}
+			c.run(&stItem{kind: "P", net: net, ds: ds})
+		}
+	}
+	nsQ := func() *stQuery { s := ns; return &stQuery{ns: &s} }
+	queries := []func() *stQuery{
+		func() *stQuery { return &stQuery{} },
+		nsQ,
+		func() *stQuery { q := nsQ(); s := rel; q.rel = &s; return q },
+		func() *stQuery { q := nsQ(); s := subs[0]; q.sub = &s; return q },
+	}
+	sizes := append([]int{}, stLargeSizes...)
+	r.Shuffle(len(sizes), func(i, j int) { sizes[i], sizes[j] = sizes[j], sizes[i] })
+	sizes = append(sizes[:3+r.Intn(2)], pick(r, []int{0, 100, 101, 250, 999}))
+	// complete listings through the API
+	for _, sz := range sizes {
+		q := queries[r.Intn(2)]() // everything / the namespace: more than 1000 matches
+		if r.Intn(4) == 0 {
+			q = pick(r, queries)()
+		}
+		c.run(&stItem{kind: "LA", net: net, via: r.Intn(3), q: q, size: sz})
+		o.Count(fmt.Sprintf("large:LA:size:%d", sz))
+	}
+	// token-following iterations through single L / PL fetches, with a write of other rows in between
+	for k := 0; k < 2; k++ {
+		sz := pick(r, stLargeSizes[:5])
+		it := &stIter{net: net, size: sz, kind: pick(r, []string{"L", "PL"}), via: r.Intn(3), q: queries[r.Intn(2)]()}
+		g.iter = it
+		o.Count("iter:start")
+		o.Count(fmt.Sprintf("large:iter:size:%d", sz))
+		g.stepIter()
+		for fetches := 1; g.iter != nil && fetches < 6; fetches++ {
+			if r.Intn(2) == 0 {
+				c.run(g.itemW(net))
+			}
+			g.stepIter()
+		}
+		g.iter = nil
+	}
+	// single pages with an arbitrary well-formed token and a large size
+	c.run(&stItem{kind: "PL", net: net, q: nsQ(), size: pick(r, stLargeSizes), tok: g.randUUID().String()})
+}
